@@ -42,7 +42,8 @@ bool Block::deleteSource(const Source &source) {
     if (!util::checkEntityInput(source, false)) {
         return false;
     }
-    return backend()->deleteSource(source.name());
+    // by id: the name of a nested source may also be the name of a root source of this block
+    return backend()->deleteSource(source.id());
 }
 
 DataArray Block::createDataArray(const std::string &name, const std::string &type, nix::DataType data_type,
